@@ -406,15 +406,17 @@ impl<T: Value> Tree<T> {
             }
         }
     }
+}
 
+impl<T: Value + Send + Sync> Tree<T> {
     /// Exploit structural sharing between identical parts of the tree.
     ///
     /// This method traverses a fully-hashed tree and replaces identical subtrees with clones of
     /// the first equal subtree. The result is a tree that shares memory for common subtrees, and
     /// thus uses less memory overall.
     ///
-    /// You MUST pass a fully-hashed tree to this function, or an `Error::IntraRebaseZeroHash`
-    /// error will be returned.
+    /// Nodes whose hash is not cached yet are hashed on demand (a hashed root does not imply a
+    /// fully-hashed tree, see below).
     ///
     /// Arguments are:
     ///
@@ -429,7 +431,7 @@ impl<T: Value> Tree<T> {
     /// trees with equal internal nodes (i.e. equal subtrees with at least two leaves/packed leaves
     /// under them).
     ///
-    /// The input tree must be fully-hashed, and the result will also remain fully-hashed.
+    /// Every node visited by this procedure ends up hashed.
     pub fn intra_rebase(
         orig: &Arc<Self>,
         known_subtrees: &mut HashMap<(usize, Hash256), Arc<Self>>,
@@ -439,6 +441,15 @@ impl<T: Value> Tree<T> {
             Self::Leaf(_) | Self::PackedLeaf(_) | Self::Zero(_) => Ok(IntraRebaseAction::Noop),
             Self::Node { hash, left, right } if current_depth > 0 => {
                 let hash = *hash.read();
+
+                // A hashed root does not imply that every node below it is hashed: rebasing
+                // replaces hashed subtrees by equal, possibly unhashed, subtrees of the base.
+                // Hash such nodes on demand.
+                let hash = if hash.is_zero() {
+                    orig.tree_hash()
+                } else {
+                    hash
+                };
 
                 // Tree must be fully hashed prior to intra-rebase.
                 if hash.is_zero() {
